@@ -169,8 +169,11 @@ class Driver:
             if '\n' in l:
                 raise LeanError(f'newline inside protocol line: {l!r}')
         t0 = time.time()
-        rc, out, err = _run(['lake', 'env', 'lean', '--run', str(self.path)],
-                            input='\n'.join(lines) + '\n', timeout=3600)
+        # under the project lock: another check's (clean) build must not pull the .olean
+        # files from under a running driver
+        with _Lock():
+            rc, out, err = _run(['lake', 'env', 'lean', '--run', str(self.path)],
+                                input='\n'.join(lines) + '\n', timeout=3600)
         self.seconds += time.time() - t0
         outs = [l for l in out.splitlines() if 'conda.cli' not in l]
         if rc != 0 or len(outs) != len(lines):
